@@ -73,7 +73,7 @@ Lemma acc_eq (s : ost T) sigma q :
    | AccRDP => rdp_acc_step s sigma q | AccPRV => prv_acc_step s sigma q | AccGDP => gdp_acc_step s sigma q end)
   = ref_acc s sigma q.
 Proof.
-  unfold ref_acc, rdp_acc_step, prv_acc_step, gdp_acc_step.
+  unfold ref_acc, rdp_acc_step, prv_acc_step, gdp_acc_step, lgetlast.
   rewrite len_geb1, lnull_rev, lpop_rev.
   destruct (o_acc s); destruct (rev (o_hist s)) as [|[[s0 q0] n] r] eqn:E; cbn [lnull negb bindr];
     try reflexivity.
